@@ -425,3 +425,67 @@ func kindErrPred(x *Ctx, it Item) {
 	x.Printf("(* %s *)\n", what)
 	x.Printf("Definition %s (is_net timeout temporary : bool) : bool :=\n  %s.\n\n", coqName(it), strings.Join(conds, "\n  || "))
 }
+
+// timerctxcheck: in function <func>, does the select clause that receives from <args.timer>
+// (e.g. `case <-timer.C:`) re-check the context (a call of <args.ctx>.Err()) before the loop
+// goes on?  -> Definition <coq> : bool.   (A timer and the end of the context can be ready
+// together -- always for a zero pause -- and select then picks at random.)
+func init() { kinds["timerctxcheck"] = kindTimerCtxCheck }
+
+func kindTimerCtxCheck(x *Ctx, it Item) {
+	what := it.File + ":" + it.Recv + "." + it.Func
+	fd := findFunc(x.File(it.File), it.Recv, it.Func)
+	if fd == nil {
+		fail("%s: function not found", what)
+	}
+	timer, _ := it.Args["timer"].(string)
+	ctxName, _ := it.Args["ctx"].(string)
+	found, checked := 0, 0
+	ast.Inspect(fd, func(n ast.Node) bool {
+		cc, ok := n.(*ast.CommClause)
+		if !ok || cc.Comm == nil {
+			return true
+		}
+		es, ok := cc.Comm.(*ast.ExprStmt)
+		if !ok {
+			return true
+		}
+		u, ok := es.X.(*ast.UnaryExpr)
+		if !ok || u.Op != token.ARROW {
+			return true
+		}
+		sel, ok := u.X.(*ast.SelectorExpr)
+		if !ok || sel.Sel.Name != "C" {
+			return true
+		}
+		if id, ok := sel.X.(*ast.Ident); !ok || id.Name != timer {
+			return true
+		}
+		found++
+		has := false
+		for _, st := range cc.Body {
+			ast.Inspect(st, func(m ast.Node) bool {
+				if call, ok := m.(*ast.CallExpr); ok {
+					if s2, ok := call.Fun.(*ast.SelectorExpr); ok && s2.Sel.Name == "Err" {
+						if id, ok := s2.X.(*ast.Ident); ok && id.Name == ctxName {
+							has = true
+						}
+					}
+				}
+				return true
+			})
+		}
+		if has {
+			checked++
+		}
+		return true
+	})
+	if found == 0 {
+		fail("%s: no `case <-%s.C:` clause", what, timer)
+	}
+	v := "false"
+	if checked == found {
+		v = "true"
+	}
+	x.Printf("(* %s: the `case <-%s.C:` clause re-checks %s.Err() *)\nDefinition %s : bool := %s.\n\n", what, timer, ctxName, coqName(it), v)
+}
